@@ -23,7 +23,10 @@ LEVEL_NOTE = ("Coq kernel; extraction; the MAIL patterns (as RE2 programs), the 
               "after k reply lines - write_failure_store_is_entitled, write_failure_is_cut, write_failure_replies_prefix); the TLS record layer is not modelled: "
               "STARTTLS IS in the model (Proofs/SmtpTls.v, SmtpTlsWire.v): the session carries the tls flag, STARTTLS is answered 454 / 220 as the code does, after 220 the "
               "session is in GREET again (after_starttls_greeting_is_due), TLS is never negotiated twice nor dropped (starttls_once, tls_never_dropped), EHLO offers it exactly "
-              "while it can be started, and plaintext pipelined behind an accepted STARTTLS line is never executed (injected_plaintext_is_never_executed, over run_stream_tls); "
+              "while it can be started, and plaintext pipelined behind an accepted STARTTLS line is never executed (injected_plaintext_is_never_executed, over run_stream_tls: true by the "
+              "definition of the model's switch, tied to the code by the smtptls stream and an own mutant). The plain byte / connection loops (run_bytes, run_net, run_net_w - and so the "
+              "cut, pause and write-failure theorems) are the model of a TLS-enabled server only for streams with nothing pipelined behind an accepted STARTTLS "
+              "(tls_stream_without_plaintext is the byte-level bridge); TLS together with pauses or failing writes is not modelled; "
               "the TLS record layer and handshake are the transport's and not modelled (TLS is transparent to the lines; a failing handshake, and plaintext behind STARTTLS that was not yet in the "
               "session's 4 KiB read buffer when the connection was wrapped - it reaches the handshake as garbage -, are outside the model); the asmtls stream runs the dialogues through a real TLS listener (SMTP_FORCETLS); the accept loops are modelled "
               "under C19 (LifecycleAccept), here the asmtls stream checks that peers which connect and stay silent do not keep another client from being served; "
@@ -41,5 +44,7 @@ RULE = ("(a) dialogues with 35% garbage/out-of-order lines between steps (mixed 
 TRUSTED = ["net.ParseIP verdicts and enmime header facts (From/To/Subject, parse error) are oracles supplied by the driver from the real functions",
            "an in-memory half-closeable connection (go/smtpd/bufconn.go) stands for TCP: the client writes, half-closes (or pauses / stays silent / breaks as scripted) and reads every reply"]
 ASSUMPTIONS = ["store operations do not fail"]
-NOT_PROVED = []
+NOT_PROVED = ["STARTTLS together with pauses / failing writes (run_net, run_net_w have no TLS switch)",
+              "plaintext behind STARTTLS beyond the session's 4 KiB read buffer: the session ends in the handshake (outside the model)",
+              "a bound on the tail of cut_trace_prefix (the step or two in which the session notices the cut)"]
 EXEC_TIMEOUT = {"quick": 900, "thorough": 14400}
